@@ -4,4 +4,4 @@ Require Extraction.
 Require Import ExtrOcamlBasic.
 (* ocaml/zutil.ml mentions the extracted types n and nat: make sure they are emitted *)
 Definition unused_n : N := N.of_nat 0.
-Extraction "model.ml" exec_report hyps_ok all_fresh exec init H_id GENPOL HEADERS_HASHED TPS mkPol unused_n.
+Extraction "model.ml" exec_report hyps_ok all_fresh exec init H_id GENPOL HEADERS_HASHED vis TPS mkPol unused_n.
